@@ -707,7 +707,6 @@ def oracle_tree(ctx, S, br, leaves, rep, seen):
 PARTIAL = [
     {"theorem": "mprocess_state_partial", "missing": "formulas for probabilities / post states are stated for the regime where no outcome has weight*p <= eps_zero; for all branches only normalisation of the post states is proved (post_states_normalised)"},
     {"theorem": "ensemble_step_partial / compose_assoc_mprocess_partial", "missing": "same no-truncation restriction; zero-distribution branch not covered; equality is at the level of the unnormalised states p·rho and the reported shape, not of the normalised StateEnsemble object"},
-    {"theorem": "born_dist non-negativity", "missing": "PSD => <Pi,rho> >= 0 needs the basis bridge (C02); sum-to-one parts proved (born_sum_one, truncNorm_sum_one)"},
     {"theorem": "mode1_to_povm_partial", "missing": "real eigenvector matrices, pairwise different eigenvalues, fold form of the spectral sum; repeated eigenvalues (dict grouping) and the complex case are covered by the correspondence / oracle only; mode 0 (sqrtm) not modelled (D14 open)"},
     {"theorem": "compose_physical CP part", "missing": "complete positivity of compositions (Kraus products) not proved; TP/identity-sum parts proved (tp_comp_tp, povm_gate_identity_sum, povm_mprocess_identity_sum, mprocess_prob_sum_one)"},
 ]
